@@ -57,8 +57,15 @@ class PythonMagicNumberAnalyzer(ast.NodeVisitor):
             node: The Constant node to check
         """
         if isinstance(node.value, (int, float)) and not isinstance(node.value, bool):
-            parent = self.parent_map.get(node)
+            parent = self._context_parent(node)
             line_number = node.lineno if hasattr(node, "lineno") else 0
             self.numeric_literals.append((node, parent, node.value, line_number))
 
         self.generic_visit(node)
+
+    def _context_parent(self, node: ast.AST) -> ast.AST | None:
+        """Parent that gives the literal its context: a sign in front of it (`MAX = -7`) is looked through."""
+        parent = self.parent_map.get(node)
+        while isinstance(parent, ast.UnaryOp) and isinstance(parent.op, (ast.USub, ast.UAdd)):
+            parent = self.parent_map.get(parent)
+        return parent
